@@ -345,6 +345,28 @@ CollectDependenciesVisitor::CollectDependenciesVisitor(std::set<symbol_t>& depen
 
 void CollectDependenciesVisitor::visitExpression(expression_t expr) { expr.collect_possible_reads(dependencies); }
 
+/** What the bounds of the ranges in a type read. */
+static void collect_range_reads(const type_t& type, std::set<symbol_t>& reads)
+{
+    if (type.get_kind() == Constants::RANGE) {
+        const auto [lower, upper] = type.get_range();
+        lower.collect_possible_reads(reads);
+        upper.collect_possible_reads(reads);
+        collect_range_reads(type[0], reads);
+    } else {
+        for (size_t i = 0; i < type.size(); ++i)
+            collect_range_reads(type[i], reads);
+    }
+}
+
+/** The range that the variable of an iteration runs over is held by the type of the variable: no expression of the
+ * statement mentions it, but the function depends on what its bounds read. */
+int32_t CollectDependenciesVisitor::visitIterationStatement(IterationStatement* stat)
+{
+    collect_range_reads(stat->symbol.get_type(), dependencies);
+    return stat->stat->accept(this);
+}
+
 void CollectDynamicExpressions::visitExpression(expression_t expr)
 {
     if (expr.is_dynamic() || expr.has_dynamic_sub())
